@@ -129,10 +129,37 @@ def mesh_lines(mesh, used):
                     '\t\t\t (in neut.cm.s^-1)', '']
         for rng_ in stp['ranges']:
             out += ['Energy range (in MeV): %s - %s' % (rng_['a'], rng_['b'])] + block(rng_['cells']) + ['']
+            if rng_.get('entropy'):         # layout of entropy.d.res.ceav5
+                out += [' \t Boltzmann Entropy of sources = %s' % rng_['entropy'][0],
+                        '\t Shannon Entropy of sources = %s' % rng_['entropy'][1], '']
         if stp['eint'] is not None:
             out += ['', 'ENERGY INTEGRATED RESULTS :'] + block(stp['eint']) + ['']
         out += ['number of batches used: %d\t%s\t%s' % (used, stp['integ'][0], stp['integ'][1]), '']
     out += ['']
+    return out
+
+
+IFP_DIMS = ['X', 'Y', 'Z', 'Phi', 'Theta', 'E']
+
+
+def ifp_lines(tables):
+    '''IFP adjoint criticality edition (layout of test_adjoint_small.d.res): tables by
+    volume (Vol, E) or by kinematic variables (X, Y, Z[, Phi, Theta], E); the first
+    column runs fastest'''
+    out = ['', STARS, '', 'IFP_ADJOINT_CRITICALITY EDITION', '', STARS, '']
+    for tab in tables:
+        out += ['IFP_ADJOINT_FLUX', '', 'SCORE NAME: %s' % tab['name'], '',
+                'IFP CYCLE LENGTH = %d' % tab['cycle'], '', STARS, '']
+        if tab['kind'] == 'vol':
+            out += ['  Vol                  E (min | max)   score [a.u.]       sigma_%', '']
+            for row in tab['rows']:
+                out.append('%5d %13s %13s %13s %13s' % tuple(row))
+        else:
+            out += [''.join('%25s' % (d + ' (min | max)') for d in tab['dims']) + '   score [a.u.]       sigma_%',
+                    '']
+            for row in tab['rows']:
+                out.append(' '.join('%13s' % x for x in row).rstrip())
+        out += ['', STARS, '']
     return out
 
 
@@ -156,6 +183,8 @@ def edition_lines(edi):
         out += generic_lines(gen, edi['used'])
     if edi.get('keff'):
         out += keff_lines(edi['keff'])
+    if edi.get('ifp'):
+        out += ifp_lines(edi['ifp'])
     out += ['', ' simulation time (s) : %d' % edi['time'], '', '']
     return out
 
@@ -321,11 +350,11 @@ def draw_mesh(rng, ires):
     or downwards independently, with or without the energy-integrated mesh'''
     shape = rng.choice([(1, 1, 3), (2, 1, 2), (1, 2, 2), (2, 2, 1), (1, 1, 1), (2, 2, 2)])
     ncell = shape[0] * shape[1] * shape[2]
-    bounds = edges(rng, rng.choice([1, 2, 3]), -11, 1.3)
+    bounds = edges(rng, rng.choice([1, 2, 2, 3, 3]), -11, 1.3)
     groups = [(bounds[i], bounds[i + 1]) for i in range(len(bounds) - 1)]
     if rng.random() < 0.5:
         groups = [(b, a) for a, b in reversed(groups)]
-    with_time = rng.random() < 0.7
+    with_time = rng.random() < 0.55
     nsteps = rng.choice([2, 2, 3, 4]) if with_time else 1
     if with_time:
         tedges = edges(rng, nsteps, -9, 3)
@@ -335,16 +364,106 @@ def draw_mesh(rng, ires):
     else:
         pairs = [(None, None)]
     with_eint = rng.random() < 0.7
+    with_entropy = not with_time and len(groups) >= 2 and rng.random() < 0.8   # (no time axis for entropies)
     steps = []
     for tmin, tmax in pairs:
         ranges = [{'a': a, 'b': b, 'cells': [[numeral(rng), numeral(rng, 'sigma')] for _ in range(ncell)]}
                   for a, b in groups]
         eint = [[numeral(rng), numeral(rng, 'sigma')] for _ in range(ncell)] if with_eint else None
+        if with_entropy:
+            for k, rng_ in enumerate(ranges):
+                rng_['entropy'] = ['%.6e' % (0.1 + 0.07 * k + rng.uniform(0, 0.05)),
+                                   '%.6e' % (0.5 + 0.09 * k + rng.uniform(0, 0.05))]
         steps.append({'tmin': tmin, 'tmax': tmax, 'ranges': ranges, 'eint': eint,
                       'integ': [numeral(rng), numeral(rng, 'sigma')]})
     return {'function': 'FLUX', 'name': 'mesh_resp_%d' % ires, 'score_name': 'mesh_score_%d' % ires,
             'decoupage': 'GRID_%d' % ires, 'mode': 'SCORE_TRACK', 'shape': list(shape),
             'with_time': with_time, 'steps': steps}
+
+
+def draw_ifp_table(rng, num):
+    '''at least two entries along every index, all values distinct'''
+    def e3(x):
+        return '%.3e' % x
+    nen = rng.choice([2, 3])
+    eedges = sorted(set(float(e3(10 ** rng.uniform(-9, 1.2))) for _ in range(nen + 6)))[:nen + 1]
+    while len(eedges) < nen + 1:
+        eedges.append(eedges[-1] * 3.0)
+    rows = []
+    count = [0]
+
+    def value():
+        count[0] += 1
+        return [e3(0.01 * count[0] + rng.uniform(0, 0.004)), e3(0.5 + 0.03 * count[0])]
+    if num % 3 == 0:
+        vols = sorted(rng.sample(range(1, 40), rng.choice([2, 3, 4])))
+        for ien in range(nen):
+            for vol in vols:
+                rows.append([vol, e3(eedges[ien]), e3(eedges[ien + 1])] + value())
+        return {'kind': 'vol', 'name': 'flux_vol_%d' % num, 'cycle': rng.randint(2, 9), 'rows': rows}
+    dims = ['X', 'Y', 'Z'] + (['Phi', 'Theta'] if num % 3 == 2 else []) + ['E']
+    axes = {}
+    for dim in dims[:-1]:
+        nbin = 2 if len(dims) > 4 else rng.choice([2, 3])
+        lo = rng.choice([-5.0, -3.142, 0.0, -1.0])
+        axes[dim] = [float(e3(lo + k * rng.choice([1.571, 2.5, 5.0]))) for k in range(nbin + 1)]
+        axes[dim] = sorted(set(axes[dim]))
+    axes['E'] = eedges
+    sizes = [len(axes[d]) - 1 for d in dims]
+    total = 1
+    for size in sizes:
+        total *= size
+    for flat in range(total):
+        idx, rest = [], flat
+        for size in sizes:              # the first column runs fastest
+            idx.append(rest % size)
+            rest //= size
+        row = []
+        for dim, k in zip(dims, idx):
+            row += [e3(axes[dim][k]), e3(axes[dim][k + 1])]
+        rows.append(row + value())
+    return {'kind': 'kin', 'dims': dims, 'name': 'FluxAdj_%d' % num, 'cycle': rng.randint(2, 9), 'rows': rows}
+
+
+def expected_ifp(tab):
+    '''cell = the row printed for these bounds (look-up in the sorted bounds)'''
+    if tab['kind'] == 'vol':
+        vols = sorted(set(r[0] for r in tab['rows']))
+        eds = sorted(set(float(x) for r in tab['rows'] for x in r[1:3]))
+        val, err = np.full((len(vols), len(eds) - 1), np.nan), np.full((len(vols), len(eds) - 1), np.nan)
+        for vol, elo, ehi, sco, sig in tab['rows']:
+            idx = (vols.index(vol), eds.index(float(elo)))
+            val[idx] = float(sco)
+            err[idx] = np.float64(float(sig)) * np.float64(float(sco)) * 0.01
+        return {'bins': {'Vol': vols, 'E': eds}, 'val': val, 'err': err}
+    dims = tab['dims']
+    axes = {d: sorted(set(float(x) for r in tab['rows'] for x in r[2 * k:2 * k + 2])) for k, d in enumerate(dims)}
+    shape = tuple((len(axes[d]) - 1) if d in axes else 1 for d in IFP_DIMS) + (1,)
+    val, err = np.full(shape, np.nan), np.full(shape, np.nan)
+    for row in tab['rows']:
+        idx = [0] * 7
+        for k, dim in enumerate(dims):
+            idx[IFP_DIMS.index(dim)] = axes[dim].index(float(row[2 * k]))
+        val[tuple(idx)] = float(row[-2])
+        err[tuple(idx)] = np.float64(float(row[-1])) * np.float64(float(row[-2])) * 0.01
+    return {'bins': axes, 'val': val, 'err': err}
+
+
+def ifp_oracle(tab, res, fail):
+    exp = expected_ifp(tab)
+    dset = res.get('score')
+    if dset is None or tuple(dset.value.shape) != exp['val'].shape:
+        fail(f'IFP table {tab["name"]}: shape {getattr(getattr(dset, "value", None), "shape", None)}, '
+             f'expected {exp["val"].shape}', 't4-ifp-shape')
+        return
+    if not same(dset.value, exp['val']):
+        fail(f'IFP table {tab["name"]}: a value is not the one printed on the row of its '
+             + ('(volume, group)' if tab['kind'] == 'vol' else 'cell and group'), 't4-ifp-value')
+    if not same(dset.error, exp['err']):
+        fail(f'IFP table {tab["name"]}: error is not value * sigma% * 0.01 of the same row', 't4-ifp-error')
+    for dim, edges_ in exp['bins'].items():
+        if not same(dset.bins[dim], edges_):
+            fail(f'IFP table {tab["name"]}: bins {dim} are not the printed bounds', 't4-ifp-bins')
 
 
 def draw_mesh_doc(rng):
@@ -355,6 +474,9 @@ def draw_mesh_doc(rng):
     protos = [draw_mesh(rng, k) for k in range(nmesh)]
     for num, edi in enumerate(doc['editions']):
         edi['meshes'] = protos if num == 0 else [draw_mesh(rng, k) for k in range(nmesh)]
+        if rng.random() < 0.6:
+            first = rng.randrange(3)
+            edi['ifp'] = [draw_ifp_table(rng, first + k) for k in range(rng.choice([1, 2, 3]))]
     return doc
 
 
@@ -391,8 +513,14 @@ def expected_mesh(mesh):
                 ierr[cell + (jtime,)] = perc(sig, sco)
         sval[jtime] = float(stp['integ'][0])
         serr[jtime] = perc(stp['integ'][1], stp['integ'][0])
+    entropies = None
+    if first[0].get('entropy'):
+        entropies = np.full((2, len(eset) - 1), np.nan)
+        for rng_ in mesh['steps'][0]['ranges']:
+            ien = eset.index(min(float(rng_['a']), float(rng_['b'])))
+            entropies[0, ien], entropies[1, ien] = float(rng_['entropy'][0]), float(rng_['entropy'][1])
     return {'ebins': eset, 'tbins': tset, 'val': val, 'err': err, 'ival': ival, 'ierr': ierr,
-            'sval': sval, 'serr': serr}
+            'sval': sval, 'serr': serr, 'entropies': entropies}
 
 
 def mesh_oracle(ctx, mesh, res, fail):
@@ -427,6 +555,16 @@ def mesh_oracle(ctx, mesh, res, fail):
                 fail(f'mesh {lab}: bins of the energy-integrated mesh', 't4-mesh-eintegrated')
     elif iset is not None:
         fail(f'mesh {lab}: an energy-integrated mesh that was not printed', 't4-mesh-eintegrated')
+    for num, key in enumerate(('boltzmann_entropy', 'shannon_entropy')):
+        eset_ = res.get(key)
+        if exp['entropies'] is None:
+            if eset_ is not None:
+                fail(f'mesh {lab}: {key} that was not printed', 't4-mesh-entropy')
+        elif eset_ is None or np.asarray(eset_.value).shape != (1, 1, 1, len(exp['ebins']) - 1, 1, 1, 1) \
+                or not same(eset_.value, exp['entropies'][num]):
+            fail(f'mesh {lab}: {key} of an energy range is not the one printed after that range', 't4-mesh-entropy')
+        elif not same(eset_.bins['e'], exp['ebins']):
+            fail(f'mesh {lab}: energy bins of {key}', 't4-mesh-entropy')
     sset = res.get('score_seintegrated' if mesh['with_time'] else 'score_integrated')
     if sset is None or not same(sset.value, exp['sval']) or not same(sset.error, exp['serr']):
         fail(f'mesh {lab}: space and energy integrated result differs from the printed one',
@@ -583,6 +721,14 @@ def t4_oracle(ctx, edi, browser, case, requested):
             continue
         seen += 1
         mesh_oracle(ctx, mesh, sel[0]['results'], fail)
+    for tab in edi.get('ifp', []):
+        sel = find_items(browser, response_type='ifp_adj_crit_edition', score_name=tab['name'],
+                         ifp_cycle_length=tab['cycle'])
+        if len(sel) != 1:
+            fail(f'{len(sel)} results for the IFP table {tab["name"]}', 't4-missing-result')
+            continue
+        seen += 1
+        ifp_oracle(tab, sel[0]['results'], fail)
     for gen in edi['generic']:
         sel = find_items(browser, response_function=gen['function'])
         if len(sel) != 1:
@@ -1035,6 +1181,8 @@ def run_t4_mesh(ctx, nlist):
             for edi in doc['editions']:
                 browser = par.parse_from_number(edi['batch']).to_browser()
                 t4_oracle(ctx, edi, browser, case, edi['batch'])
+                for tab in edi.get('ifp', []):
+                    ctx.count('t4_ifp_table_' + (tab['kind'] if tab['kind'] == 'vol' else '%dd' % len(tab['dims'])))
                 for mesh in edi['meshes']:
                     ctx.count('t4_mesh_time_%s' % ('none' if not mesh['with_time'] else
                                                    'down' if float(mesh['steps'][0]['tmin'])
@@ -1042,6 +1190,8 @@ def run_t4_mesh(ctx, nlist):
                     ctx.count('t4_mesh_energy_%s' % ('down' if float(mesh['steps'][0]['ranges'][0]['a'])
                                                      > float(mesh['steps'][0]['ranges'][0]['b']) else 'up'))
                     ctx.count('t4_mesh_eintegrated_%s' % ('yes' if mesh['steps'][0]['eint'] else 'no'))
+                    if mesh['steps'][0]['ranges'][0].get('entropy'):
+                        ctx.count('t4_mesh_entropy_%d_ranges' % len(mesh['steps'][0]['ranges']))
                     sel = find_items(browser, response_name=mesh['name'], scoring_zone_type='Mesh')
                     if len(sel) == 1 and 'score' in sel[0]['results']:
                         ncell = mesh['shape'][0] * mesh['shape'][1] * mesh['shape'][2]
